@@ -12,6 +12,10 @@ avoid = ""
 if used:
     avoid = ("IMPORTANT - the following ideas have ALREADY been used by earlier changes; do NOT reuse them or close variants of them, find different "
              "code sites and different mechanisms (other modules of ford/, templates, other option combinations, other multi-step histories):\n" + "\n".join(used) + "\n\n")
+if int(rnd) >= 5:
+    avoid += ("Look beyond the parser core too: ford/templates/*.html (Jinja macros and pages), ford/output.py, ford/tipue_search.py, ford/graphs.py, "
+              "ford/pagetree.py, ford/settings.py, ford/_markdown.py and the md_* extensions, ford/external_project.py, ford/fixed2free2.py, ford/utils.py, "
+              "ford/__init__.py are all fair game when the property depends on them.\n\n")
 t = t.replace("/tmp/seed2/", f"/tmp/seed{rnd}/").replace("/tmp/seedout2/", f"/tmp/seedout{rnd}/")
 t = t.replace("{ID}", pid).replace("{TITLE}", prop['title']).replace("{STATEMENT}", prop['statement']).replace("{QUANT}", prop['quantifier']['text']).replace("{AVOID}", avoid)
 print(t)
